@@ -18,9 +18,10 @@ for d in sorted(glob.glob(os.path.join(ROOT, "seeded", "*"))):
 hdr = """### 9.5 Seeded changes and which checks catch them
 
 %d changes to txtpp were written by sub-agents that saw only the text of one property and a scratch worktree
-(four rounds; the second asked for less obvious sites, the third and fourth - `"round": 3` in meta.json, the fourth for
-C01-C05, C08, C10, C11, C14, C18 - for three mutually different mechanisms per property with narrow failing inputs,
-schedule-dependent ones included). Each was confirmed in a scratch worktree (`tools/confirm_seeds.sh`,
+(six rounds; the second asked for less obvious sites, the third and fourth (`"round"` in meta.json) for three mutually
+different mechanisms per property with narrow failing inputs, schedule-dependent ones included; the fifth and sixth were
+confined to the ENTRY LAYER - src/main.rs, lib.rs, config.rs, progress.rs, error.rs, shell.rs: how an invocation becomes a
+run and how its result is reported). Each was confirmed in a scratch worktree (`tools/confirm_seeds.sh`,
 `tools/confirm_seeds3.sh`: the patch applies, the 104 tests + 4 doc tests pass with it, it builds with the `verif` feature, its
 demonstration behaves differently with it than without it) and is
 kept under `seeded/<id>/` (patch.diff, demo/, meta.json). `tools/run_seeds.py` applies each to /repo, runs the quick check of
@@ -34,7 +35,16 @@ check of their own property (C01-7: a stored tag whose text names another stored
 generator never stored such text; C10-6: `txtpp.md` / `.txtpp` taken for sources - no such decoys; C18-6: partially
 overlapping tag names panic - the tag fuzz drew names from a large alphabet; C18-7: a directory reached twice makes the
 coordinator wait forever - the configuration fuzz always passed the single input `.`); generators extended, all caught now
-(C14 / C11 / C03 caught the same changes from the start).
+(C14 / C11 / C03 caught the same changes from the start). Rounds 5-6 (entry layer, 24 changes): the library-level
+jobs cannot see src/main.rs at all, so before these rounds only the two CLI jobs of C09 / C13 looked at it. Every CLI-dependent
+property now has a CLI job (cli04/06/07/09/11/13: flags in varying order and spelling, `-n` with `-N` / `verify`, a top-level
+`-N` in front of a sub-command, `-v` / no `-q`, named inputs, failing verify through the exit status, missing or stale
+outputs under `-N` with the no-touch check, absent outputs named to clean), C11 cases and C04 faults also go through the
+binary (inputs named one by one, inputs spelled through a named directory, a directory called `pages.txtpp`, look-alike
+inputs), C17 gives the shell by a relative path, and the C18 fuzz runs the binary with the progress display on (long
+non-ASCII names, a directory whose name is not UTF-8, blank / padded / unknown `-s` values). Ten of the 24 were missed
+before these additions, none after. The flag mapping and the shell argument vector are also in the Lean model now
+(Model/Cli.lean, Model/Shell.lean) and compared with the code by the same jobs.
 
 | id | property | what the change does | caught by (quick tier) |
 |----|----------|----------------------|------------------------|
